@@ -65,8 +65,11 @@ PROPS = {
                "Zap.fieldsSame_sound"], MERGE_FILES),
     "C06": _p([{"gen": "C06"}], ["ZapProofs.Props.C06"],
               ["Zap.enumerate_spec", "Zap.C06_dict", "Zap.C06_sorted", "Zap.C06_term", "Zap.C06_same_unchanged"], MERGE_FILES),
-    "C07": _p([{"regress": "d8_prealloc_missing_field.script"}, {"gen": "C07"}], ["ZapProofs.Props.C07"],
-              ["Zap.C07_run", "Zap.C07_count", "Zap.C07_live", "Zap.C07_replace"], POST_FILES),
+    "C07": _p([{"regress": "d8_prealloc_missing_field.script"}, {"gen": "C07"}], ["ZapProofs.Props.C07", "ZapProofs.Props.C07Reuse"],
+              ["Zap.C07_run", "Zap.C07_count", "Zap.C07_live", "Zap.C07_replace",
+               "Zap.C07_reuse", "Zap.C07_reuse_spec", "Zap.C07_reuse_absent", "Zap.C07_reuse_source", "Zap.C07_flags_extracted",
+               "Zap.C07_preserved_ok"],
+              POST_FILES + ["ZapModel/Reuse.lean", "ZapProofs/ReuseLemmas.lean", "ZapProofs/Props/C07Reuse.lean"]),
     "C08": _p([{"regress": "d1_stale_1hit.script"}, {"gen": "C08"}], ["ZapProofs.Props.C08", "ZapProofs.Props.C08Facts"],
               ["Zap.C08_dict", "Zap.C08_stale_1hit_counterexample", "Zap.C08_merge_writes_wf",
                "Zap.C08Facts.sideCondition_holds", "Zap.C08Facts.read_clears_1hit", "Zap.C08Facts.count_reads_reinitialised"],
